@@ -90,6 +90,21 @@ var bigShapes = []struct {
 	{"or-list", func(n int) string { return "a:(" + strings.TrimSuffix(strings.Repeat("v OR ", n), " OR ") + ")" }},
 	{"ranges", func(n int) string { return strings.TrimSuffix(strings.Repeat("a:[1 TO 5] OR ", n), " OR ") }},
 	{"right-nested", func(n int) string { return strings.Repeat("a AND (", n) + "b" + strings.Repeat(")", n) }},
+	{"right-nested-list", func(n int) string { return "f:(" + strings.Repeat("v OR (", n) + "v" + strings.Repeat(")", n) + ")" }},
+	{"left-nested-list", func(n int) string { return "f:(" + strings.Repeat("(", n) + "v" + strings.Repeat(" OR v)", n) + ")" }},
+	{"nested-field-groups", func(n int) string { return strings.Repeat("f:(", n) + "v" + strings.Repeat(")", n) }},
+	{"nested-not-list", func(n int) string { return "f:(" + strings.Repeat("NOT (", n) + "v" + strings.Repeat(")", n) + ")" }},
+	{"must-chain", func(n int) string { return strings.Repeat("+(", n) + "a:b" + strings.Repeat(")", n) }},
+	{"long-word-escaped-invalid", func(n int) string { return strings.Repeat("x", n*3) + "\\\xff" }},
+	{"escaped-invalid-run", func(n int) string { return "w" + strings.Repeat("\\\xff", n) }},
+	{"all-escaped-word", func(n int) string { return strings.Repeat(`\:`, n) }},
+	{"long-wildcard", func(n int) string { return "a:" + strings.Repeat("x*?", n) }},
+	{"long-regexp", func(n int) string { return "a:/" + strings.Repeat(`x\/`, n) + "/" }},
+	{"long-field-name", func(n int) string { return strings.Repeat("f", n*5) + ":v" }},
+	{"long-quoted-invalid", func(n int) string { return `a:"` + strings.Repeat("\xff\x00 ", n) + `"` }},
+	{"suffix-on-groups", func(n int) string { return strings.Repeat("(", n) + "a" + strings.Repeat(")^2", n) }},
+	{"range-chain-juxtaposed", func(n int) string { return strings.Repeat("a:[1 TO 5] ", n) }},
+	{"mixed-prefix-chain", func(n int) string { return strings.Repeat("NOT -+", n/3+1) + "a" }},
 	{"unterminated-quote", func(n int) string { return strings.Repeat("a ", n) + `"` }},
 	{"escapes", func(n int) string { return strings.Repeat(`\`, n*2+1) }},
 }
@@ -137,11 +152,12 @@ func TestC01(t *testing.T) {
 		units = 4000
 	}
 	if cfg.Shard == 0 {
-		st.Stream("big-shapes", false, fmt.Sprintf("%d adversarial shapes at %d and %d repeated units, both default-field options", len(bigShapes), units/2, units))
+		st.Stream("big-shapes", false, fmt.Sprintf("%d adversarial shapes at 24, 48, %d and %d repeated units (the two small rungs keep exponential blow-ups inside the 512-byte / 20 s hang rule), both default-field options", len(bigShapes), units/2, units))
 		growth := map[string]any{}
+		sizes := []int{24, 48, units / 2, units}
 		for _, sh := range bigShapes {
-			var times [2]float64
-			for i, n := range []int{units / 2, units} {
+			times := make([]float64, len(sizes))
+			for i, n := range sizes {
 				in := sh.mk(n)
 				t0 := time.Now()
 				for _, df := range []string{"", "dflt"} {
@@ -159,10 +175,10 @@ func TestC01(t *testing.T) {
 				times[i] = time.Since(t0).Seconds()
 			}
 			ratio := 0.0
-			if times[0] > 0 {
-				ratio = times[1] / times[0]
+			if times[2] > 0 {
+				ratio = times[3] / times[2]
 			}
-			growth[sh.name] = map[string]any{"units": units, "t_half_s": times[0], "t_full_s": times[1], "ratio_on_doubling": ratio}
+			growth[sh.name] = map[string]any{"units": units, "t_24_s": times[0], "t_48_s": times[1], "t_half_s": times[2], "t_full_s": times[3], "ratio_on_doubling": ratio}
 		}
 		st.Extra("growth_all_six_operations", growth)
 		st.Sample("big-shape", fmt.Sprintf("%.60q...", bigShapes[0].mk(units)))
